@@ -108,7 +108,7 @@ class NameValuePair(FieldParsableBase):
 
         parser = cls._parse_name(parsable)
         if parser.unparsed_length:
-            parser.parse_separator(cls.get_separator())
+            parser.parse_string('separator', cls.get_separator())
             parser.parse_string_by_length('value', min_length=0)
             value = parser['value']
             if value and value[0] == '"':
